@@ -55,6 +55,14 @@ REGEX_SPECS = [
     # --- C10: ObjectPool node indices (util/ObjectPool.h): INVALID_NODE_INDEX = ((uintNN)-1) must not be a valid index
     ("pool_max_objects_per_slab", "util/ObjectPool.h", r"static_assert\(NUM_OBJECTS_PER_SLAB\s*<=\s*(\d+)", "int"),
     ("pool_node_index_bits", "util/ObjectPool.h", r"enum\s*\{\s*INVALID_NODE_INDEX\s*=\s*\(\(uint(\d+)\)\s*-1\)\s*\}", "int"),
+    # --- C10: the code shape of the two atomic operations the model takes as single steps (system/AtomicCounter.h, the branch compiled
+    #     here): the result is computed from the value the ONE read-modify-write returned (kind "flag": 1 iff that text is present)
+    ("c10_inc_single_rmw", "system/AtomicCounter.h",
+     r"inline bool AtomicIncrement\(\)\s*\{\s*(?:#ifdef MUSCLE_VERIF_HOOKS\s*MUSCLE_VERIF_YIELD\(MUSCLE_VERIF_ATOMIC_INC, this\);\s*#endif\s*)?#if defined\(MUSCLE_SINGLE_THREAD_ONLY\) \|\| !defined\(MUSCLE_AVOID_CPLUSPLUS11\)\s*return \(\+\+_count == 1\);", "flag"),
+    ("c10_dec_single_rmw", "system/AtomicCounter.h",
+     r"inline bool AtomicDecrement\(\)\s*\{\s*(?:#ifdef MUSCLE_VERIF_HOOKS\s*MUSCLE_VERIF_YIELD\(MUSCLE_VERIF_ATOMIC_DEC, this\);\s*#endif\s*)?#if defined\(MUSCLE_SINGLE_THREAD_ONLY\) \|\| !defined\(MUSCLE_AVOID_CPLUSPLUS11\)\s*return \(--_count == 0\);", "flag"),
+    ("c10_count_is_std_atomic", "system/AtomicCounter.h",
+     r"#elif !defined\(MUSCLE_AVOID_CPLUSPLUS11\)\s*std::atomic<int32> _count;", "flag"),
     ("mini_CURRENT_PROTOCOL_VERSION", "lang/c/minimessage/MiniMessage.c", r"#define\s+CURRENT_PROTOCOL_VERSION\s+(\d+)", "int"),
     ("mini_OLDEST_SUPPORTED_PROTOCOL_VERSION", "lang/c/minimessage/MiniMessage.c", r"#define\s+OLDEST_SUPPORTED_PROTOCOL_VERSION\s+(\d+)", "int"),
     ("micro_CURRENT_PROTOCOL_VERSION", "lang/c/micromessage/MicroMessage.c", r"#define\s+CURRENT_PROTOCOL_VERSION\s+(\d+)", "int"),
